@@ -3,6 +3,8 @@ mod core_sim;
 mod directive_sim;
 mod fmt_sim;
 mod fsites;
+mod jsites;
+mod json_sim;
 mod driver;
 mod fw;
 mod rec;
@@ -21,7 +23,7 @@ use fw::{Engine, GenCtx};
 use serde_json::Value;
 use std::io::Read;
 
-static ENGINES: &[&(dyn Engine)] = &[&appender::AppenderEngine, &core_sim::CoreEngine, &registry_sim::RegistryEngine, &span_sim::SpanEngine, &stack_sim::StackEngine, &wrap_sim::WrapEngine, &reload_sim::ReloadEngine, &directive_sim::DirectiveEngine, &fmt_sim::FmtEngine, &time_sim::TimeEngine, &rolling_sim::RollingEngine];
+static ENGINES: &[&(dyn Engine)] = &[&appender::AppenderEngine, &core_sim::CoreEngine, &registry_sim::RegistryEngine, &span_sim::SpanEngine, &stack_sim::StackEngine, &wrap_sim::WrapEngine, &reload_sim::ReloadEngine, &directive_sim::DirectiveEngine, &fmt_sim::FmtEngine, &time_sim::TimeEngine, &rolling_sim::RollingEngine, &json_sim::JsonEngine];
 
 fn engine_for_prop(prop: &str) -> Option<&'static dyn Engine> {
     ENGINES.iter().copied().find(|e| e.props().contains(&prop))
@@ -44,6 +46,7 @@ fn budget(prop: &str) -> (u64, u64) {
         "C11" => (80_000, 1_500_000),
         "C12" => (100_000, 2_000_000),
         "C13" => (80_000, 1_500_000),
+        "C14" => (100_000, 2_000_000),
         "C20" => (30_000, 500_000),
         "C16" => (40_000, 800_000),
         "C06" => (120_000, 2_500_000),
